@@ -190,10 +190,19 @@ def random_history(rng, nops_max):
         # some base rulesets are ruleset-cgroup rulesets whose pattern matches exactly one existing cgroup: evaluated through
         # one per-cgroup instance (and so are their drop-in copies), they must behave like the plain ruleset in everything C13
         # states - order, scoped replacement, and being disabled while a drop-in targets them
-        sc["tree"] = {"name": "", "children": [{"name": "s", "children": [{"name": "a", "children": []}]}]}
+        # ... (also with an xattr_filter that only s/a passes: s/b matches the pattern but is filtered out, for the base and
+        # for every drop-in copy of it)
+        sc["tree"] = {"name": "", "children": [{"name": "s", "children": [
+            {"name": "a", "xattrs": {"user.oomd_x": "1"}, "children": []}]}]}
+        filt = rng.random() < 0.5
+        if filt:
+            sc["tree"]["children"][0]["children"].append({"name": "b", "children": []})
         for b in base:
             if rng.random() < 0.6:
                 b["cgroup"] = rng.choice(["s/a", "s/*", "s/a"])
+                if filt:
+                    b["cgroup"] = rng.choice(["s/*", "s/*", "s/?"])
+                    b["xattr_filter"] = "user.oomd_x"
     return sc
 
 
